@@ -4,6 +4,7 @@ CONSTANTS
   Focuses = {}
   Counts = {}
   Filters = {}
+  TwoFocuses = {}
 INVARIANT Verdicts
 POSTCONDITION Accepted
 CHECK_DEADLOCK FALSE
